@@ -131,6 +131,9 @@ func runC02(c *Ctx, tier string) {
 	runTypeNamesQuoted(c, "C02-Q1")
 	runMapColonSeparator(c, "C02-M2")
 	runDepthCounterBalanced(c, "C02-D2")
+	runDuplicateFieldsLastWins(c, "C02-J1")
+	runSetLiteralsBecomeSetNodes(c, "C02-S3")
+	runEnumSymbolsQuoted(c, "C02-Q2")
 }
 
 // ---------------------------------------------------------------- C03
@@ -310,6 +313,8 @@ func runC03(c *Ctx, tier string) {
 	runFlattenedNullsCached(c, "C03-F1")
 	runSlotAlignedChildrenInheritNulls(c, "C03-E1")
 	runVcacheLoadsWhatItProjects(c, "C03-P2")
+	runVcachePrimitiveCoverage(c, "C03-K2")
+	runNullsMarkedLoadedAtEOF(c, "C03-F2")
 }
 
 // subCallSeq lists, in source order, the receivers of calls to method `name` in fd's body;
